@@ -21,13 +21,18 @@ def suite():
 
 res = {"property": pid.upper(), "mutant": X}
 sh("git checkout -- . && git clean -fdq", W)
+head = sh("git -C /repo rev-parse HEAD")[1].strip()
+sh("git checkout -q --detach %s" % head, W)          # the worktree follows /repo's HEAD
 demo_name = "demo_%s_%s" % (pid, X.lower())
 os.makedirs(os.path.join(W, "tests"), exist_ok=True)
 shutil.copy(os.path.join(src, "demo.rs"), os.path.join(W, "tests", demo_name + ".rs"))
 rc0, out0 = sh("cargo test --offline --test %s 2>&1 | tail -5" % demo_name, W)
 res["demo_passes_without_change"] = (rc0 == 0 and "test result: ok" in out0)
 rc, out = sh("git apply %s/patch.diff" % src, W)
+if rc != 0:
+    rc, out = sh("git apply --3way %s/patch.diff && git reset -q" % src, W)
 res["patch_applies"] = rc == 0
+rebased = sh("git diff", W)[1]
 rc1, out1 = sh("cargo test --offline --test %s 2>&1 | tail -15" % demo_name, W)
 res["demo_fails_with_change"] = "test result: FAILED" in out1 or "panicked" in out1
 os.remove(os.path.join(W, "tests", demo_name + ".rs"))
@@ -52,7 +57,7 @@ for cid in checks:
 sh("git checkout -- . && git clean -fdq", W)
 dst = "/verif/seeded/%s_%s" % (pid, X)
 os.makedirs(dst, exist_ok=True)
-shutil.copy(os.path.join(src, "patch.diff"), dst)
+open(os.path.join(dst, "patch.diff"), "w").write(rebased)   # regenerated against /repo's HEAD
 shutil.copy(os.path.join(src, "demo.rs"), dst)
 meta = json.load(open(os.path.join(src, "meta.json"))) if os.path.exists(os.path.join(src, "meta.json")) else {}
 meta["confirmed_by_us"] = res
